@@ -796,9 +796,12 @@ pub fn assert_slippage_tolerance(
         let deposit_amounts: Vec<Uint256> =
             deposits.iter().map(|coin| coin.amount.into()).collect();
 
-        // Sort assets by denom to ensure the order of the assets in the pool is the same as the
-        // deposits, which are sorted previously
-        pool_assets.sort_by(|a, b| a.denom.cmp(&b.denom));
+        // Sort a copy of the assets by denom to ensure the order of the assets is the same as the
+        // deposits, which are sorted previously. The caller's vector must keep the pool's asset order,
+        // as it is stored back into the pool and indexed together with the asset decimals.
+        let mut sorted_pool_assets = pool_assets.to_vec();
+        sorted_pool_assets.sort_by(|a, b| a.denom.cmp(&b.denom));
+        let pool_assets: &[Coin] = &sorted_pool_assets;
 
         let pools: Vec<Uint256> = pool_assets.iter().map(|coin| coin.amount.into()).collect();
 
